@@ -879,6 +879,33 @@ func (ev *evaluator) eval(s *Sym, hint string) val {
 		}
 		return ev.base(s, hint)
 	case "exists", "forall", "count", "sum":
+		if interpretedList(s.Kids[0]) {
+			// a list computed by the string library (the segments of a path): quantify over its concrete elements
+			acc := val{k: 'b', b: s.Op == "forall"}
+			if s.Op == "count" || s.Op == "sum" {
+				acc = val{k: 'i'}
+			}
+			for _, v := range ev.eval(s.Kids[0], "list").list {
+				body := s.Kids[1].subst(map[string]*Sym{s.Name: sStr(v.s)})
+				switch s.Op {
+				case "exists":
+					if ev.eval(body, "bool").b {
+						acc.b = true
+					}
+				case "forall":
+					if !ev.eval(body, "bool").b {
+						acc.b = false
+					}
+				case "count":
+					if ev.eval(body, "bool").b {
+						acc.i++
+					}
+				case "sum":
+					acc.i += ev.eval(body, "int").i
+				}
+			}
+			return acc
+		}
 		if s.Kids[0].Op == "array" {
 			acc := val{k: 'b', b: s.Op == "forall"}
 			if s.Op == "count" || s.Op == "sum" {
